@@ -13,7 +13,7 @@ for d in /tmp/seed9/${ONLY:-C*}/out; do
     # combined patch: worktree-free, by applying both patches on an exported copy
     w=/tmp/seed9/combined/$n; rm -rf $w; mkdir -p $w
     git -C /repo archive HEAD | tar -x -C $w
-    ( cd $w && git init -q && git add -A && git -c user.email=a@b -c user.name=x commit -qm base && for b in $base; do git apply /verif/benign/$b/patch.diff || exit 1; done && git apply $d/mutant$k.diff && git diff > /tmp/seed9/combined/$n.diff )
+    ( cd $w && git init -q && git add -A && git -c user.email=a@b -c user.name=x commit -qm base && for b in $base; do git apply /verif/benign/$b/patch.diff || exit 1; done && git apply $d/mutant$k.diff && git add -A && git diff --cached > /tmp/seed9/combined/$n.diff )
     rm -rf $w
     [ -s /tmp/seed9/combined/$n.diff ] || { echo "$n: cannot build the combined patch"; continue; }
     echo "$n /tmp/seed9/combined/$n.diff $d/demo$k.py $d/notes$k.txt $id"
